@@ -301,13 +301,26 @@ impl ASN1Type {
     ) -> Result<(), GrammarError> {
         match self {
             ASN1Type::ChoiceSelectionType(c) => {
-                if let Some(ToplevelDefinition::Type(parent)) = tlds.get(&c.choice_name) {
-                    *self = parent.ty.clone();
+                // X.680 30: `identifier < Type` is the type of that alternative of the CHOICE
+                let selected = match tlds.get(&c.choice_name) {
+                    Some(ToplevelDefinition::Type(ToplevelTypeDefinition {
+                        ty: ASN1Type::Choice(choice),
+                        ..
+                    })) => choice
+                        .options
+                        .iter()
+                        .find(|o| o.name == c.selected_option)
+                        .map(|o| o.ty.clone()),
+                    _ => None,
+                };
+                if let Some(selected) = selected {
+                    *self = selected;
                     Ok(())
                 } else {
                     Err(grammar_error!(
                         LinkerError,
-                        "Could not find Choice {} of selection type.",
+                        "Could not find alternative {} of Choice {} of selection type.",
+                        c.selected_option,
                         c.choice_name
                     ))
                 }
